@@ -59,6 +59,15 @@ func (e *p2pEnv) rangeReply(beh string, o, a uint64, have int) peers.Reply {
 			return peers.Reply{Kind: "notfound"}
 		}
 		return peers.Reply{Kind: "ok", Headers: hs, Delay: 45 * time.Millisecond}
+	case "partialreset": // k headers of the answer, then the stream is reset
+		hs := avail(get(o, a))
+		if arg < len(hs) {
+			hs = hs[:arg]
+		}
+		if len(hs) == 0 {
+			return peers.Reply{Kind: "reset"}
+		}
+		return peers.Reply{Kind: "partialreset", Headers: hs}
 	case "prefix":
 		hs := avail(get(o, a))
 		if arg < len(hs) {
@@ -225,13 +234,17 @@ func (e *p2pEnv) sessionCase(prop string, from, to uint64, chunk uint64, ps []se
 }
 
 var byzantine = []string{"shift:1", "shift:5", "dup", "reorder", "gapped", "forged:0", "forged:1", "wrongchain", "oversized", "status", "garbage", "notfound", "empty", "reset", "hang", "prefix:1", "prefix:2"}
-var benign = []string{"slow", "notfound", "prefix:1", "prefix:2", "prefix:3", "hang", "reset", "empty"}
+var benign = []string{"slow", "partialreset:1", "partialreset:2", "notfound", "prefix:1", "prefix:2", "prefix:3", "hang", "reset", "empty"}
 
 func runSession(prop, tier string, r *rng) {
 	e := newP2PEnv(5)
 	defer e.closer()
 	if line := os.Getenv("VERIF_REPLAY_CASE"); line != "" {
 		kv := kvOf(line)
+		if kv["op"] != "" { // a Get/GetByHeight case of the C18 run
+			e.c13Case(kv["op"], strings.Split(kv["answers"], ","), atoiList(kv["order"]))
+			return
+		}
 		from, _ := strconv.ParseUint(kv["from"], 10, 64)
 		to, _ := strconv.ParseUint(kv["to"], 10, 64)
 		chunk, _ := strconv.ParseUint(kv["chunk"], 10, 64)
@@ -295,10 +308,28 @@ func runSession(prop, tier string, r *rng) {
 			e.sessionCase(prop, 3, 3+1+amount, chunk, []sessPeer{{have: 120}}, 1500)
 			e.sessionCase(prop, 3, 3+1+amount, chunk, []sessPeer{{have: int(3 + amount/2)}, {have: 120}}, 1500)
 		}
+		// the stream dies after part of a chunk went out: the remainder of that chunk must be asked for again
+		if chunk >= 3 && chunk <= 8 {
+			e.sessionCase(prop, 3, 3+1+2*chunk, chunk, []sessPeer{{have: 120, behs: []string{"partialreset:2"}}, {have: 120}}, 1500)
+			e.sessionCase(prop, 3, 3+1+chunk, chunk, []sessPeer{{have: 120, behs: []string{"partialreset:1", "partialreset:1"}}}, 1500)
+		}
 		// one peer is slow on its first answer: sub-ranges arrive out of order
 		if chunk <= 8 {
 			e.sessionCase(prop, 3, 3+1+3*chunk, chunk, []sessPeer{{have: 120, behs: []string{"slow"}}, {have: 120}}, 1500)
 			e.sessionCase(prop, 3, 3+1+4*chunk, chunk, []sessPeer{{have: 120, behs: []string{"slow"}}, {have: 120}, {have: 120, behs: []string{"honest", "slow"}}}, 1500)
+		}
+	}
+	// the property's last sentence: Get and GetByHeight return the servers' data when some honest peers lag or hang
+	for _, op := range []string{"get", "byheight"} {
+		for _, c := range []struct {
+			ans []string
+			ord []int
+		}{
+			{[]string{"notfound", "valid"}, []int{0, 1}}, {[]string{"notfound", "valid"}, []int{1, 0}},
+			{[]string{"notfound", "notfound", "valid"}, []int{0, 1, 2}}, {[]string{"hang", "valid"}, []int{0, 1}},
+			{[]string{"reset", "notfound", "valid"}, []int{0, 1, 2}}, {[]string{"valid", "valid"}, []int{0, 1}},
+		} {
+			e.c13Case(op, c.ans, c.ord)
 		}
 	}
 	k := 50
